@@ -854,6 +854,11 @@ def prefix_costs_ok(case, ctx, res):
 def tie_ok(case, ctx, res, i):
     """a result that differs from the model's is accepted iff the call is inside the statement, the result is optimal
     and the recorded costs are the prefix costs of the recorded sequence"""
+    if ctx["flag"] is None:
+        # only an earlier estimate(log=True) of this object declared logarithms: the statement leaves open whether that
+        # still stands (the oracle accepts either reading and demands nothing when one of them is not a model); the
+        # MODEL keeps the flag (self.log = self.log or log), and it is the model's choice among ties that is validated here
+        ctx = dict(ctx, flag=True)
     if not in_statement(case, ctx, res):
         return False
     if check_est(case, ctx, res, i) is not None:
